@@ -71,11 +71,17 @@ def format_hms (duration, milliseconds=False):
 
 def xml_escape ( input_text ):
     '''
-    Replace the five XML special characters with their character entities
+    Replace the five XML special characters with their character entities,
+    and tab, line feed and carriage return with numeric character references:
+    an XML parser turns those three into spaces inside attribute values (and a
+    carriage return into a line feed elsewhere) unless they are written that way.
     '''
     new_text = input_text.replace('&','&amp;')
     new_text = new_text.replace('<','&lt;')
     new_text = new_text.replace('>','&gt;')
     new_text = new_text.replace('"','&quot;')
     new_text = new_text.replace("'",'&apos;')
+    new_text = new_text.replace('\t','&#9;')
+    new_text = new_text.replace('\n','&#10;')
+    new_text = new_text.replace('\r','&#13;')
     return new_text
